@@ -615,6 +615,8 @@ func genC14wt(seed uint64, tier string) *Scenario {
 	return s
 }
 
+func simnetFault(kind string, conn int) simnet.Fault { return simnet.Fault{Kind: kind, Conn: conn} }
+
 func init() {
 	core.Register("C01wt", genC01wt, Run)
 	core.Register("C02wt", genC02wt, Run)
